@@ -510,7 +510,7 @@ func W[T any](site int, v T) T { Yield(site); return v }
 
 // Go replaces a `go` statement.
 func Go(site int, fn func()) {
-	s := active
+	s := activeSim()
 	if s == nil || cur() == nil {
 		go fn()
 		return
@@ -523,6 +523,9 @@ func Go(site int, fn func()) {
 	go s.taskMain(t, fn)
 	Yield(site)
 }
+
+//go:norace
+func activeSim() *Sim { return active }
 
 //go:norace
 func cur() *Task {
